@@ -8,7 +8,7 @@
     the code after the fix commit "coinswap routed swaps return the intermediate standard coin
     to the sender" (before it, leg 1 of a routed swap paid the recipient: corpus/C02). *)
 From Irismod Require Import Coinswap.Model Coinswap.Check Coinswap.ProofsArith Coinswap.ProofsSpec
-  Coinswap.Proofs Coinswap.ProofsValue Coinswap.ProofsSound.
+  Coinswap.Proofs Coinswap.ProofsValue Coinswap.ProofsSound Coinswap.ProofsLpt.
 
 Local Open Scope Z_scope.
 
@@ -150,6 +150,24 @@ Theorem transfer_settlement :
     /\ same_reg s s'.
 Proof. exact exec_send_spec. Qed.
 Print Assumptions transfer_settlement.
+
+(** liquidity tokens are minted only against deposits and burned only against withdrawals: for any
+    step by a user and any registered pool, if the LPT supply grew the reserves did not shrink and at
+    least one grew, if it shrank no reserve grew, and in both cases the signer's own LPT balance
+    changed by exactly the supply change (creation fee not denominated in an LPT denom) *)
+Theorem lpt_mint_burn_only_against_reserves :
+  forall (s : state) (m : msg) (cp n : Z),
+    Inv s -> sender_ok m -> In (cp, n) (pools s) -> p_cdenom (par s) <= 1000 ->
+    let s' := step s m in
+    let dL := liquidity s' n - liquidity s n in
+    let dS := reserve_std s' n - reserve_std s n in
+    let dT := reserve_tok s' cp n - reserve_tok s cp n in
+    (0 < dL -> 0 <= dS /\ 0 <= dT /\ 0 < dS + dT
+               /\ exists a, sender_of m = Some a /\ bal (led s') a (lpt n) = bal (led s) a (lpt n) + dL)
+    /\ (dL < 0 -> dS <= 0 /\ dT <= 0
+               /\ exists a, sender_of m = Some a /\ bal (led s') a (lpt n) = bal (led s) a (lpt n) + dL).
+Proof. exact lpt_step_lemma. Qed.
+Print Assumptions lpt_mint_burn_only_against_reserves.
 
 (** ** supplies *)
 
